@@ -124,6 +124,12 @@ Params(name) ==
                                       {"none", "trimmed", "notrimmed"}, BOOLEAN, {0}, {1, 2})
       [] name = "t_options"  -> Suite("trans", TextsMid, TextsAP, {"x"}, Headers1x, 2, 1, CtxNone,
                                       {"none", "trimmed", "notrimmed"}, BOOLEAN, {0}, {1, 2})
+      \* whitespace options of the lexer (WsModes): bodies that start with a line break / end in
+      \* indentation, with and without trimming
+      [] name = "q_ws"       -> Suite("trans", TextsWs, TextsWsP, {"x"}, HeadersX, 2, 2, CtxNone,
+                                      {"none"}, {FALSE}, {0}, {1, 2})
+      [] name = "t_ws"       -> Suite("trans", TextsWs \cup {<<"%">>}, TextsWsP, {"x"}, HeadersX, 3, 2, CtxNone,
+                                      {"none", "trimmed"}, {FALSE}, {0}, {1, 2})
       [] name = "q_calls"    -> Suite("calls", TextsCall, TextsTiny, {}, Headers0, 0, 0, CtxNone,
                                       {"none"}, {FALSE}, {0, 1}, {1, 2})
       [] name = "t_text"     -> Suite("trans", TextsFull, {}, {"x"}, HeadersText, 4, 0, CtxNone,
@@ -256,6 +262,36 @@ WellFormed(b) ==
     /\ (b.hasPlural => CountVar(b) # "")
     /\ (b.pvar # "" => b.pvar \in HeaderNames(b))
     /\ (~b.hasPlural => b.p = <<>>)
+
+(* ------------------------------------------------------------------------ *)
+(* whitespace options of the lexer (trim_blocks / lstrip_blocks)             *)
+(* ------------------------------------------------------------------------ *)
+\* documentation: trim_blocks - "the first newline after a block is removed (block, not
+\* variable tag!)"; lstrip_blocks - "spaces and tabs stripped from the start of a line to a
+\* block".  A body of a trans block follows a block tag ({% trans %} / {% pluralize %}) and
+\* is followed by one ({% pluralize %} / {% endtrans %}); what the parser of the extension
+\* is handed is the body after these two rules.  `ws` in "none" | "trim" | "lstrip" | "both".
+WsModes(name) == IF name \in {"q_ws", "t_ws"} THEN {"trim", "lstrip", "both"} ELSE {"none"}
+TrimsBlocks(ws)  == ws \in {"trim", "both"}
+LStripsBlocks(ws) == ws \in {"lstrip", "both"}
+IsBlankAtom(a) == a.k = "c" /\ a.x \in {" ", "\t"}
+IsNlAtom(a) == a.k = "c" /\ a.x = "\n"
+\* trailing blanks of a body go when they are all there is since the start of their line:
+\* a line break in front of them, or the very start of the body when the tag in front of the
+\* body took a line break with it (lineStart)
+RECURSIVE DropBlanks(_)
+DropBlanks(a) == IF a # <<>> /\ IsBlankAtom(a[Len(a)]) THEN DropBlanks(SubSeq(a, 1, Len(a) - 1)) ELSE a
+LStripAtoms(a, lineStart) ==
+    LET d == DropBlanks(a)
+    IN IF (d = <<>> /\ lineStart) \/ (d # <<>> /\ IsNlAtom(d[Len(d)])) THEN d ELSE a
+LexAtoms(a, ws) ==
+    LET eats == TrimsBlocks(ws) /\ a # <<>> /\ IsNlAtom(a[1])
+        t == IF eats THEN Tail(a) ELSE a
+    IN IF LStripsBlocks(ws) THEN LStripAtoms(t, eats) ELSE t
+PiecesOfAtoms(a) == MapSeq(a, LAMBDA t : IF t.k = "v" THEN VarP(t.x) ELSE TextP(<<t.x>>))
+LexBody(ps, ws) == IF ws = "none" THEN ps ELSE PiecesOfAtoms(LexAtoms(Atoms(ps), ws))
+\* the block as the parser of the extension sees it under the whitespace options
+Seen(b) == [b EXCEPT !.s = LexBody(b.s, b.ws), !.p = LexBody(b.p, b.ws)]
 
 (* ------------------------------------------------------------------------ *)
 (* concrete syntax (joined to one string by the harness)                     *)
@@ -481,7 +517,7 @@ NoRes == <<>>
 TransStart(name) ==
     LET q == Params(name)
     IN [suite : {name}, header : q.headers, ctx : q.ctxs, mod : q.mods, policy : q.policies, lead : q.leads,
-        s : {<<>>}, p : {<<>>}, hasPlural : {FALSE}, pvar : {""}]
+        s : {<<>>}, p : {<<>>}, hasPlural : {FALSE}, pvar : {""}, ws : WsModes(name)]
 CallStart(name) ==
     {c \in CallCases(name) :
         /\ (~IsPlural(c.fn) => (c.m2 = CHOOSE t \in Params(name).ptexts : TRUE) /\ c.count = "num")
@@ -528,18 +564,21 @@ RunOf(b, nd, w, autoescape) ==
     IN [w |-> w, autoescape |-> autoescape, newstyle |-> nd.new, ok |-> r.ok, out |-> r.out,
         calls |-> Calls(b, nd, w)]
 
-TransCase(b) ==
-    LET nodes == [new \in BOOLEAN |-> Node(b, new)]
-    IN [kind |-> "trans", suite |-> b.suite, src |-> Src(b), policy |-> b.policy,
+\* the source is the block as written (b0); everything expected of it is the mechanism
+\* applied to the block the lexer hands over under the whitespace options of the case
+TransCase(b0) ==
+    LET b == Seen(b0)
+        nodes == [new \in BOOLEAN |-> Node(b, new)]
+    IN [kind |-> "trans", suite |-> b.suite, src |-> Src(b0), policy |-> b.policy, ws |-> b0.ws,
         feat |-> [referenced |-> Referenced(b) # {}, header_vars |-> b.header # <<>>,
                   percent |-> HasPercent(b.s) \/ HasPercent(b.p), plural |-> b.hasPlural,
-                  trimmed |-> EffTrim(b), context |-> b.ctx # NoCtx, ws_inert |-> WsInert(b)],
+                  trimmed |-> EffTrim(b), context |-> b.ctx # NoCtx, ws_inert |-> WsInert(b0)],
         data |-> {[w |-> w, vals |-> DataOf(b, w)] : w \in WorldsFor(b)},
         runs |-> {RunOf(b, nodes[new], w, ae) : w \in WorldsFor(b), ae \in BOOLEAN, new \in BOOLEAN},
         extracted |-> [old |-> Extracted(b, nodes[FALSE]), new |-> Extracted(b, nodes[TRUE])]]
 
 CallCase(c) ==
-    [kind |-> "call", suite |-> c.suite, src |-> CallSrc(c), policy |-> FALSE,
+    [kind |-> "call", suite |-> c.suite, src |-> CallSrc(c), policy |-> FALSE, ws |-> "none",
      feat |-> [dyn |-> c.dyn, kw |-> c.kw, fn |-> c.fn, ws_inert |-> TRUE],
      data |-> {[w |-> w, vals |-> [n \in {"y", "vx", c.count} |-> WVal(w, n)]] : w \in P(c).worlds},
      runs |-> {[w |-> w, autoescape |-> ae, newstyle |-> new, calls |-> <<CallRuntime(c, w)>>]
@@ -569,8 +608,9 @@ C33_FormatTotal == Checked => \A r \in res.runs : r.ok
 \* the mechanism yields the text of the block: variables substituted, form
 \* chosen by the count, only variable values escaped
 C33_RendersLikeSource ==
-    Checked => LET sh == Shape(blk)
-               IN \A r \in res.runs : r.ok => r.out = AbstractText(blk, sh, r.w, r.autoescape)
+    Checked => LET b == Seen(blk)
+                   sh == Shape(b)
+               IN \A r \in res.runs : r.ok => r.out = AbstractText(b, sh, r.w, r.autoescape)
 
 C33_OldNewAgree ==
     Checked => \A r1 \in res.runs, r2 \in res.runs :
@@ -591,7 +631,7 @@ C33_CallsAreExtracted ==
 \* trimming stated per position (abstract) = strip + regex substitution (code)
 C33_TrimLayersAgree ==
     Checked =>
-       \A ps \in {blk.s, blk.p} :
+       \A ps \in {blk.s, blk.p, Seen(blk).s, Seen(blk).p} :
           FlatSeq(MapSeq(TrimAtoms(Atoms(ps)), LAMBDA t : IF t.k = "c" THEN Doubled(<<t.x>>) ELSE Placeholder(t.x)))
              = TrimChars(RawMsg(ps))
 =============================================================================
